@@ -53,3 +53,20 @@ Section SourceExit.
     - destruct (sorted_paths (missing _ _ _)) as [|m ms]; reflexivity.
   Qed.
 End SourceExit.
+
+(* ---- history.load_from_path: the check of the chain and of the manifests it lists -------------------------------------- *)
+Section SourceChain.
+  Variable C : Type.
+  Variable cdig : C -> text.
+  Lemma src_check_generations_is_model files ces :
+    src_check_generations C cdig files ces = option_map load_err_code (check_entries C cdig files ces).
+  Proof.
+    induction ces as [|ce ces IH]; cbn [src_check_generations check_entries]; [reflexivity|].
+    destruct (find (fun m => N.eqb (mf_no C m) (Tree.ce_file ce)) files) as [m|]; [|reflexivity].
+    destruct (text_eqb (cdig (mf_content C m)) (Tree.ce_digest ce)); cbn [negb]; [exact IH|reflexivity].
+  Qed.
+  Theorem src_check_chain_is_model (h : hist C) : src_check_chain C cdig h = option_map load_err_code (check_chain C cdig h).
+  Proof.
+    unfold src_check_chain, check_chain. destruct (h_chain C h) as [ces|]; [apply src_check_generations_is_model|reflexivity].
+  Qed.
+End SourceChain.
